@@ -28,3 +28,24 @@ package fuse
 //@   assertcall [nopad] @fileInode :: !f.Padding
 //@   focus    assert:nopad
 //@   props    C20
+
+// handle.Read / Release (C02): the reader of an open handle has ONE cursor, and
+// FUSE reads on a handle run concurrently (AsyncRead): every use of the reader
+// -- Seek, SetContext, the read itself, Close -- happens while this call holds
+// the handle's semaphore (holds_: the last operation of this function on the
+// channel was a completed send), so two reads cannot interleave their
+// seek/read pairs. PARTIAL check (only these assertions).
+//@ func (*handle).Read
+//@   requires handle != nil
+//@   modifies *
+//@   assertcall [sema]  Seek :: holds_(handle.sema)
+//@   assertcall [sema2] SetContext :: holds_(handle.sema)
+//@   assertcall [sema3] ReadFull :: holds_(handle.sema)
+//@   focus    assert:sema
+//@   props    C02
+//@ func (*handle).Release
+//@   requires handle != nil
+//@   modifies *
+//@   assertcall [sema]  Close :: holds_(handle.sema)
+//@   focus    assert:sema
+//@   props    C02
